@@ -41,7 +41,7 @@ var targets = map[string][]string{
 		"Roster.GenerateNaryTree", "Roster.GenerateBinaryTree", "Roster.GenerateStar",
 		"Roster.GetID", "Roster.Concat+cond", "Roster.NewRosterWithRoot+cond", "Roster.RandomSubset+cond",
 		"Tree.computeSubtreeAggregate+cond", "NewTreeFromMarshal+cond", "Tree.BinaryUnmarshaler+cond"},
-	"local.go": {"LocalTest.GenTree", "LocalTest.GenBigTree+cond", "LocalTest.GenRosterFromHost"},
+	"local.go":    {"LocalTest.GenTree", "LocalTest.GenBigTree+cond", "LocalTest.GenRosterFromHost"},
 	"messages.go": {"Token.ID", "Token.Clone", "Token.ChangeTreeNodeID"},
 	"context.go": {"Context.SendRaw", "Context.Save", "Context.Load", "Context.LoadRaw", "Context.LoadVersion", "Context.SaveVersion",
 		"Context.GetAdditionalBucket", "Context.SetValidPeers", "Context.GetValidPeers", "Context.NewPeerSetID"},
@@ -59,7 +59,7 @@ var targets = map[string][]string{
 		"Router.triggerConnectionErrorHandlers", "Router.connection+cond"},
 	"network/dispatch.go": {"BlockingDispatcher.Dispatch", "RoutineDispatcher.Dispatch"},
 	"service.go":          {"serviceManager.Process"},
-	"network/tls.go": {"makeVerifier+cond+lit", "certMaker.get+cond", "certMaker.getCertificate", "certMaker.getClientCertificate+cond", "pubFromCN+cond", "pubToCN", "mkNonce", "NewTLSListenerWithListenAddr", "NewTLSConn", "tlsConfig"},
+	"network/tls.go":      {"makeVerifier+cond+lit", "certMaker.get+cond", "certMaker.getCertificate", "certMaker.getClientCertificate+cond", "pubFromCN+cond", "pubToCN", "mkNonce", "NewTLSListenerWithListenAddr", "NewTLSConn", "tlsConfig"},
 	"network/address.go": {"Address.Valid+cond", "validHostname+cond", "Address.ConnType+cond", "Address.NetworkAddress+cond",
 		"Address.Host+cond", "Address.Port+cond", "Address.IsHostname+cond", "NewAddress"},
 	"network/struct.go": {"GlobalBind+cond", "ServerIdentity.GetID", "ServerIdentity.Equal+cond"},
@@ -133,7 +133,13 @@ type visitor struct {
 	cond bool
 	// lit: a function literal that is returned is part of the shape ("func{" ... "}")
 	lit bool
+	// full ("+full", implies cond): assignments, increments, loop headers, switch tags and case
+	// lists are part of the shape too — for decision logic whose data flow the property rests on
+	full bool
 }
+
+// rich is set while a "+full" target is walked
+var rich bool
 
 // cond renders a condition with its operators (decision logic)
 func cond(e ast.Expr) string {
@@ -156,7 +162,56 @@ func cond(e ast.Expr) string {
 		}
 		return x.Value
 	}
+	if !rich {
+		return render(e)
+	}
+	// "+full" targets: data flow is part of the shape, so operands are rendered in full
+	switch x := e.(type) {
+	case *ast.IndexExpr:
+		return cond(x.X) + "[" + cond(x.Index) + "]"
+	case *ast.SliceExpr:
+		lo, hi := "", ""
+		if x.Low != nil {
+			lo = cond(x.Low)
+		}
+		if x.High != nil {
+			hi = cond(x.High)
+		}
+		return cond(x.X) + "[" + lo + ":" + hi + "]"
+	case *ast.CompositeLit:
+		var es []string
+		for _, el := range x.Elts {
+			es = append(es, cond(el))
+		}
+		return render0(x.Type) + "{" + strings.Join(es, ",") + "}"
+	case *ast.KeyValueExpr:
+		return cond(x.Key) + ":" + cond(x.Value)
+	case *ast.StarExpr:
+		return "*" + cond(x.X)
+	case *ast.SelectorExpr:
+		return cond(x.X) + "." + x.Sel.Name
+	case *ast.TypeAssertExpr:
+		if x.Type == nil {
+			return cond(x.X) + ".(type)"
+		}
+		return cond(x.X) + ".(" + render0(x.Type) + ")"
+	}
 	return render(e)
+}
+
+func render0(e ast.Expr) string {
+	if e == nil {
+		return ""
+	}
+	return render(e)
+}
+
+func condList(es []ast.Expr) string {
+	var as []string
+	for _, a := range es {
+		as = append(as, cond(a))
+	}
+	return strings.Join(as, ",")
 }
 
 func (v visitor) Visit(n ast.Node) ast.Visitor {
@@ -177,6 +232,82 @@ func (v visitor) Visit(n ast.Node) ast.Visitor {
 			*v.out = append(*v.out, "defer:"+nm)
 		}
 		return nil
+	case *ast.AssignStmt:
+		if v.full {
+			for _, r := range x.Rhs {
+				ast.Walk(v, r) // calls on the right-hand side first (evaluation order)
+			}
+			*v.out = append(*v.out, "assign:"+condList(x.Lhs)+x.Tok.String()+condList(x.Rhs))
+			return nil
+		}
+	case *ast.IncDecStmt:
+		if v.full {
+			*v.out = append(*v.out, "assign:"+cond(x.X)+x.Tok.String())
+			return nil
+		}
+	case *ast.ForStmt:
+		if v.full {
+			if x.Init != nil {
+				ast.Walk(v, x.Init)
+			}
+			c := ""
+			if x.Cond != nil {
+				c = cond(x.Cond)
+			}
+			*v.out = append(*v.out, "for:"+c+"{")
+			ast.Walk(v, x.Body)
+			if x.Post != nil {
+				ast.Walk(v, x.Post)
+			}
+			*v.out = append(*v.out, "}")
+			return nil
+		}
+	case *ast.RangeStmt:
+		if v.full {
+			k, val := "", ""
+			if x.Key != nil {
+				k = cond(x.Key)
+			}
+			if x.Value != nil {
+				val = cond(x.Value)
+			}
+			ast.Walk(v, x.X)
+			*v.out = append(*v.out, "range:"+k+","+val+":="+cond(x.X)+"{")
+			ast.Walk(v, x.Body)
+			*v.out = append(*v.out, "}")
+			return nil
+		}
+	case *ast.SwitchStmt:
+		if v.full {
+			if x.Init != nil {
+				ast.Walk(v, x.Init)
+			}
+			t := ""
+			if x.Tag != nil {
+				t = cond(x.Tag)
+			}
+			*v.out = append(*v.out, "switch:"+t+"{")
+			ast.Walk(v, x.Body)
+			*v.out = append(*v.out, "}")
+			return nil
+		}
+	case *ast.CaseClause:
+		if v.full {
+			if x.List == nil {
+				*v.out = append(*v.out, "default")
+			} else {
+				*v.out = append(*v.out, "case:"+condList(x.List))
+			}
+			for _, st := range x.Body {
+				ast.Walk(v, st)
+			}
+			return nil
+		}
+	case *ast.BranchStmt:
+		if v.full {
+			*v.out = append(*v.out, x.Tok.String())
+			return nil
+		}
 	case *ast.IfStmt:
 		if v.cond {
 			if x.Init != nil {
@@ -291,7 +422,9 @@ func main() {
 		for _, want := range targets[f] {
 			withLit := strings.HasSuffix(want, "+lit")
 			want = strings.TrimSuffix(want, "+lit")
-			withCond := strings.HasSuffix(want, "+cond")
+			withFull := strings.HasSuffix(want, "+full")
+			want = strings.TrimSuffix(want, "+full")
+			withCond := strings.HasSuffix(want, "+cond") || withFull
 			want = strings.TrimSuffix(want, "+cond")
 			body, ok := bodies[want]
 			var seq []string
@@ -300,7 +433,9 @@ func main() {
 				missing = append(missing, f+":"+want)
 				seq = []string{"<function not found>"}
 			} else {
-				ast.Walk(visitor{&seq, withCond, withLit}, body)
+				rich = withFull
+				ast.Walk(visitor{&seq, withCond, withLit, withFull}, body)
+				rich = false
 			}
 			id := strings.NewReplacer(".", "_", "/", "_").Replace(strings.TrimSuffix(f, ".go") + "_" + want)
 			b.WriteString("def " + id + " : List String := [")
